@@ -436,11 +436,25 @@ PROPS['C12'] = {
         H('c12_hdr_n2_b2', 'decoder', 'quick', 2400, 14, 'every 2-byte input, caller buffer 2, every chunking of the inner stream into reads of 1..2 bytes', nocover=True),
         H('c12_hdr_n3_b2', 'decoder', 'thorough', 7200, 30, 'every 3-byte input, caller buffer 2, every chunking into inner reads of 1..2 bytes'),
         H('c12_hdr_n3_b3', 'decoder', 'thorough', 7200, 30, 'every 3-byte input, caller buffer 3, every chunking into inner reads of 1..3 bytes'),
+    ] + [
+        H('c12_sched_n%d_%s' % (n, sch), 'decoder', tier, 2400, 14,
+          'every %d-byte input, inner reader delivering the chunk sizes %s (chunkings enumerated: one instance per composition; '
+          'bytes symbolic)' % (n, '+'.join(sch)))
+        for n, sch, tier in [
+            (3, '111', 'quick'), (3, '12', 'quick'), (3, '21', 'quick'), (3, '3', 'quick'),
+            (4, '22', 'quick'), (4, '13', 'quick'), (4, '31', 'quick'), (4, '4', 'quick'),
+            (5, '5', 'quick'), (6, '6', 'quick'),
+            (4, '1111', 'thorough'), (4, '112', 'thorough'), (4, '121', 'thorough'), (4, '211', 'thorough'),
+            (5, '23', 'thorough'), (5, '32', 'thorough'),
+        ]
     ],
     'assumptions': ['the JSON stage behind both paths is the same function (serde_json + decode_common), so agreement of the byte streams handed '
                     'to it is what can differ; the slice path keeps the LF that ends the header (JSON whitespace), the reader drops it',
-                    'inner reader contract: returns 1..=min(remaining, buffer) bytes, 0 only at end of input'],
+                    'inner reader contract: returns 1..=min(remaining, buffer) bytes, 0 only at end of input',
+                    'c12_hdr_*: the chunking is a solver variable; c12_sched_*: chunkings are enumerated (every composition of 3 and of 4), '
+                    'because a symbolic chunking makes every loop bound symbolic (N = 3 then needs 25 min and 30 GB)'],
     'trusted': [],
-    'outside': ['JSON decoding after the header', 'is_sourcemap* detection predicates', 'data URLs (base64)', 'inputs longer than 3 bytes '
-                '(4-byte inputs, needed for a read boundary between CR and LF followed by payload, exceed 30 GB)'],
+    'outside': ['JSON decoding after the header', 'is_sourcemap* detection predicates', 'data URLs (base64)',
+                'inputs longer than 4 bytes under multi-read chunkings (5/6 bytes: single read and two 2+3/3+2 reads only)',
+                'caller buffers smaller than the chunk in the enumerated-chunking harnesses (covered for N <= 3 by the c12_hdr_* harnesses)'],
 }
